@@ -599,7 +599,8 @@ Proof. exact run_hop_square. Qed.
 Print Assumptions C03Heap_run_hop_square.
 
 (** any history over {Reroot, reroot_nocheck, UnRoot, GraftTipOnEdge, RemoveEdges(one branch),
-    nni.Apply, removeTip(by name), RotateInternalNodes, SortNeighborsByTips, RemoveSingleNodes}: the heap stays good and represents
+    nni.Apply, removeTip(by name), RotateInternalNodes, SortNeighborsByTips, RemoveSingleNodes,
+    the k-th NNI proposal applied (and undone)}: the heap stays good and represents
     the tree the same history gives on the tree model *)
 Theorem C03Heap_history : forall ops h t h', Good h -> abs h = Some t -> run_heap ops h = HOk h' ->
   Good h' /\ exists t', run_tree ops t = Ok t' /\ abs h' = Some t' /\ wf t' = true.
@@ -610,7 +611,8 @@ Print Assumptions C03Heap_history.
 Theorem C03Heap_history_links : forall t,
   (forall i, run_hop_tree (HReroot i) t = run_op (OReroot i) t) /\ run_hop_tree HUnroot t = run_op OUnroot t /\
   (forall cs, run_hop_tree (HRotate cs) t = run_op (ORotate cs) t) /\
-  run_hop_tree HSort t = run_op OSort t /\ run_hop_tree HRmSingle t = run_op ORmSingle t.
+  run_hop_tree HSort t = run_op OSort t /\ run_hop_tree HRmSingle t = run_op ORmSingle t /\
+  (forall k undo, run_hop_tree (HNni k undo) t = run_op (ONni k undo) t).
 Proof. intros t. repeat split; reflexivity. Qed.
 Print Assumptions C03Heap_history_links.
 
@@ -661,3 +663,14 @@ Example C03Heap_run_remove_single :
                     end) (seq 0 6) = true.
 Proof. vm_compute. reflexivity. Qed.
 Print Assumptions C03Heap_run_remove_single.
+
+(** a closed run with the later operations: NNI proposals applied and undone, sorting, a tip
+    removal that leaves a single node, RemoveSingleNodes *)
+Example C03Heap_run_mixed_history2 :
+  let ops := [HNni 3 true; HNni 1 false; HSort; HReroot 5; HNni 2 false; HRemoveTip "d"; HRotate [0;1;0;0;1;1;2;0]; HRmSingle; HNni 0 true] in
+  match run_heap ops (heap_of hx_deep), run_tree ops hx_deep with
+  | HOk h', Ok t' => abs_is h' t'
+  | _, _ => false
+  end = true.
+Proof. vm_compute. reflexivity. Qed.
+Print Assumptions C03Heap_run_mixed_history2.
